@@ -22,6 +22,7 @@ pub fn dispatch(f: &[&str]) -> String {
         "sum" => { let items: Vec<BigDecimal> = if f[2].is_empty() { vec![] } else { f[2].split(',').map(p_dec).collect() };
                    if f[1] == "ref" { f_dec(&items.iter().sum::<BigDecimal>()) } else { f_dec(&items.into_iter().sum::<BigDecimal>()) } }
         "cmp" => cmp_op(f[1], f[2], f[3]),
+        "hash" => hash_op(f[1]),
         "to_prim" => to_prim(f[1], f[2], f[3]),
         "to_bigint" => match p_dec(f[1]).to_bigint() { Some(v) => v.to_string(), None => "None".to_string() },
         "is_integer" => p_dec(f[1]).is_integer().to_string(),
@@ -218,4 +219,18 @@ fn cmp_op(func: &str, a: &str, b: &str) -> String {
         "ref_partial_cmp" => match x.to_ref().partial_cmp(&y.to_ref()) { Some(o) => ord(o), None => "None".to_string() },
         _ => "UNKNOWN-CMP".to_string(),
     }
+}
+
+struct Rec(Vec<u8>);
+impl std::hash::Hasher for Rec {
+    fn finish(&self) -> u64 { 0 }
+    fn write(&mut self, bytes: &[u8]) { self.0.extend_from_slice(bytes); }
+}
+
+fn hash_op(a: &str) -> String {
+    use std::hash::Hash;
+    let x = p_dec(a);
+    let mut r = Rec(vec![]);
+    x.hash(&mut r);
+    r.0.iter().map(|b| b.to_string()).collect::<Vec<_>>().join(",")
 }
